@@ -9,7 +9,7 @@ use nuts_rs::verif::{
 };
 use nuts_rs::{DivergenceInfo, KineticEnergyKind, LowRankSettings, Math};
 use serde_json::{Value as J, json};
-use verif_harness::rngs::{Call, ScriptRng};
+use verif_harness::rngs::{Call, DirRng, ScriptRng};
 use verif_harness::wrapmath::WrapMath;
 use verif_harness::*;
 
@@ -27,6 +27,9 @@ struct LogCollector {
     init: Option<J>,
     leapfrogs: Vec<J>,
     draw: Option<J>,
+    /// mirror mode (C01): handles of the start (first entry) and of every leapfrog end, in order
+    keep_states: bool,
+    states: Vec<State<WM, TransformedPoint<WM>>>,
 }
 
 fn point_json(math: &mut WM, s: &State<WM, TransformedPoint<WM>>) -> J {
@@ -62,6 +65,9 @@ impl Collector<WM, TransformedPoint<WM>> for LogCollector {
         j["div_logp_error"] = json!(divergence_info.map(|d| d.logp_function_error.is_some()).unwrap_or(false));
         j["div_energy_error"] = json!(divergence_info.and_then(|d| d.energy_error).map(bits));
         self.leapfrogs.push(j);
+        if self.keep_states {
+            self.states.push(end.clone());
+        }
     }
     fn register_draw(&mut self, math: &mut WM, state: &State<WM, TransformedPoint<WM>>, info: &SampleInfo) {
         let mut j = point_json(math, state);
@@ -70,7 +76,141 @@ impl Collector<WM, TransformedPoint<WM>> for LogCollector {
     }
     fn register_init(&mut self, math: &mut WM, state: &State<WM, TransformedPoint<WM>>, _o: &NutsOptions) {
         self.init = Some(point_json(math, state));
+        if self.keep_states {
+            self.states.push(state.clone());
+        }
     }
+}
+
+/// Collector of one mirror rebuild: shape of the tree (indices relative to its start) and the
+/// largest deviation of the states it integrates from the states of the original orbit.
+struct MirrorCollector<'a> {
+    /// index of the rebuild's start on the original orbit
+    s: i64,
+    /// original orbit: index -> (transformed position, velocity)
+    orbit: &'a std::collections::HashMap<i64, (Vec<f64>, Vec<f64>)>,
+    min: i64,
+    max: i64,
+    steps: u64,
+    diverged: u64,
+    outside: u64,
+    dq: f64,
+    dv: f64,
+}
+
+impl<'a> Collector<WM, TransformedPoint<WM>> for MirrorCollector<'a> {
+    fn register_leapfrog(
+        &mut self,
+        math: &mut WM,
+        _start: &State<WM, TransformedPoint<WM>>,
+        end: &State<WM, TransformedPoint<WM>>,
+        divergence_info: Option<&DivergenceInfo>,
+    ) {
+        self.steps += 1;
+        if divergence_info.is_some() {
+            self.diverged += 1;
+            return;
+        }
+        let i = end.index_in_trajectory();
+        self.min = self.min.min(i);
+        self.max = self.max.max(i);
+        match self.orbit.get(&(self.s + i)) {
+            None => self.outside += 1,
+            Some((q, v)) => {
+                let d = end.point().verif_data(math);
+                for (a, b) in d.transformed_position.iter().zip(q.iter()) {
+                    let e = (a - b).abs();
+                    if !(e <= self.dq) {
+                        self.dq = e;
+                    }
+                }
+                for (a, b) in d.velocity.iter().zip(v.iter()) {
+                    let e = (a - b).abs();
+                    if !(e <= self.dv) {
+                        self.dv = e;
+                    }
+                }
+            }
+        }
+    }
+}
+
+/// C01 mirror rebuild.  `states` = start and leapfrog ends of a draw that ended, without a
+/// divergence, with a tree of depth `depth >= 1`: the accepted tree consists of the start and the
+/// first 2^depth - 1 leapfrog ends and occupies the index interval [lo, hi].  For chosen states s of
+/// it, `nuts::draw` is run again from a copy of state s (same position, gradient, velocity) with
+/// maxdepth = depth and with the doubling directions mirrored: doubling j goes forward iff the
+/// block of size 2^j (aligned from lo) that contains s is the left half of its parent block.
+fn mirror_rebuilds<H: Hamiltonian<WM, Point = TransformedPoint<WM>>>(
+    math: &mut WM,
+    ham: &mut H,
+    opts: &NutsOptions,
+    states: &[State<WM, TransformedPoint<WM>>],
+    depth: u64,
+    seed: u64,
+) -> J {
+    let n = 1usize << depth;
+    if states.len() < n {
+        return json!({"skipped": "fewer states than 2^depth"});
+    }
+    let acc = &states[..n];
+    let mut orbit = std::collections::HashMap::new();
+    let (mut lo, mut hi) = (0i64, 0i64);
+    for st in acc {
+        let d = st.point().verif_data(math);
+        lo = lo.min(d.index_in_trajectory);
+        hi = hi.max(d.index_in_trajectory);
+        orbit.insert(d.index_in_trajectory, (d.transformed_position, d.velocity));
+    }
+    if hi - lo + 1 != n as i64 || orbit.len() != n {
+        return json!({"skipped": "accepted states are not an interval of 2^depth indices"});
+    }
+    // which states to rebuild from: all of a small tree, else a seeded sample with both ends and the start
+    let mut sm = SplitMix(seed ^ 0x6d69_7272_6f72);
+    let mut chosen: Vec<i64> = if n <= 16 {
+        (lo..=hi).collect()
+    } else {
+        let mut c = vec![lo, hi, 0];
+        while c.len() < 10 {
+            let s = lo + sm.below(n as u64) as i64;
+            if !c.contains(&s) {
+                c.push(s);
+            }
+        }
+        c
+    };
+    chosen.sort();
+    chosen.dedup();
+    let mut out = vec![];
+    for s in chosen {
+        let src = acc.iter().find(|st| st.index_in_trajectory() == s).unwrap();
+        let vel = src.point().verif_data(math).velocity;
+        let dirs: Vec<bool> = (0..depth).map(|j| (((s - lo) >> j) & 1) == 0).collect();
+        let mut start = ham.copy_state(math, src);
+        math.gauss_script.clear();
+        math.gauss_script.push_back(vel);
+        let mut rng = DirRng::new(dirs.clone(), sm.next());
+        let mut coll = MirrorCollector { s, orbit: &orbit, min: 0, max: 0, steps: 0, diverged: 0, outside: 0, dq: 0.0, dv: 0.0 };
+        let o2 = NutsOptions { maxdepth: depth, ..opts.clone() };
+        let res = catch(|| nuts_draw(math, &mut start, &mut rng, ham, &o2, &mut coll));
+        math.gauss_script.clear();
+        let mut j = json!({
+            "s": s, "dirs": dirs, "min": coll.min, "max": coll.max, "steps": coll.steps,
+            "diverged_steps": coll.diverged, "outside": coll.outside, "dq": coll.dq, "dv": coll.dv,
+            "dir_words": rng.pos, "coin_words": rng.n_u64,
+        });
+        match res {
+            Err(p) => j["panic"] = json!(p),
+            Ok(Err(e)) => j["err"] = json!(format!("{e:?}")),
+            Ok(Ok((_, info))) => {
+                j["depth"] = json!(info.depth);
+                j["reached_maxdepth"] = json!(info.reached_maxdepth);
+                j["diverging"] = json!(info.divergence_info.is_some());
+            }
+        }
+        out.push(j);
+    }
+    json!({"lo": lo, "hi": hi, "rebuilds": out})
 }
 
 fn parse_u64s(v: &J, k: &str) -> Vec<u64> {
@@ -210,9 +350,23 @@ fn run_with<H: Hamiltonian<WM, Point = TransformedPoint<WM>> + Retransform>(
                        "final": point_json(&mut math, &cur)});
         return json!({"id": case["id"], "init_state": "ok", "draws": [d], "evals": [], "evals_before": evals_before});
     }
+    let mirror = jb(case, "mirror", false)
+        && opts.extra_doublings == 0
+        && opts.check_turning
+        && opts.target_integration_time.is_none()
+        && opts.mindepth == 0;
+    // optional: one scripted momentum per draw
+    let momenta: Vec<Vec<f64>> = case
+        .get("momenta")
+        .and_then(|x| x.as_array())
+        .map(|a| a.iter().map(|m| m.as_array().map(|v| v.iter().map(|y| y.as_f64().unwrap()).collect()).unwrap_or_default()).collect())
+        .unwrap_or_default();
     for k in 0..ndraws {
         // momentum of draw k: rotate the scripted vector so that successive draws differ
-        let m: Vec<f64> = (0..dim).map(|i| mom[(i + k as usize) % dim.max(1)]).collect();
+        let mut m: Vec<f64> = (0..dim).map(|i| mom[(i + k as usize) % dim.max(1)]).collect();
+        if !momenta.is_empty() && momenta[k as usize % momenta.len()].len() == dim {
+            m = momenta[k as usize % momenta.len()].clone();
+        }
         math.gauss_script.push_back(m);
         if k >= 1 {
             if let Some(rt) = case.get("retransform") {
@@ -223,10 +377,31 @@ fn run_with<H: Hamiltonian<WM, Point = TransformedPoint<WM>> + Retransform>(
             }
         }
         let mut coll = LogCollector::default();
+        coll.keep_states = mirror;
         let calls_before = rng.calls.len();
         let evals_start = log.lock().unwrap().count;
         let res = catch(|| nuts_draw(&mut math, &mut state, &mut rng, &mut ham, &opts, &mut coll));
         let evals_end = log.lock().unwrap().count;
+        // mirror rebuilds (C01) of a draw that ended without divergence at depth >= 1; the handles
+        // kept by the collector are released before anything else looks at the returned state
+        let mut mirror_out = None;
+        let kept = std::mem::take(&mut coll.states);
+        if mirror {
+            if let Ok(Ok((_, info))) = &res {
+                if info.divergence_info.is_none() && info.depth >= 1 && info.depth <= 12 {
+                    let keep = std::mem::replace(&mut log.lock().unwrap().keep, false);
+                    let depth = info.depth;
+                    let seed = ju(case, "seed", 1).wrapping_add(k);
+                    mirror_out = Some(match catch(|| mirror_rebuilds(&mut math, &mut ham, &opts, &kept, depth, seed)) {
+                        Ok(j) => j,
+                        Err(p) => json!({"panic": p}),
+                    });
+                    math.gauss_script.clear();
+                    log.lock().unwrap().keep = keep;
+                }
+            }
+        }
+        drop(kept);
         let calls: Vec<J> = rng.calls[calls_before..]
             .iter()
             .map(|c| match c {
@@ -239,6 +414,9 @@ fn run_with<H: Hamiltonian<WM, Point = TransformedPoint<WM>> + Retransform>(
             "init": coll.init, "leapfrogs": coll.leapfrogs, "registered_draw": coll.draw,
             "rng_calls": calls, "evals": evals_end - evals_start, "script_exhausted": rng.exhausted,
         });
+        if let Some(mj) = mirror_out {
+            d["mirror"] = mj;
+        }
         match res {
             Err(p) => {
                 d["result"] = json!({"panic": p});
